@@ -68,4 +68,80 @@ func init() {
 			tallFamily(c, "C01")
 		}
 	}
+
+	Checks["C02"] = func(c *Ctx) {
+		trs := pick(c, []uint8{0, 3, 63}, []uint8{0, 1, 2, 3, 4, 5, 31, 62, 63})
+		fam := &HistFamily{
+			Nmax:      pick(c, 7, 9),
+			Insts:     stdInsts(trs, []string{"all", "even"}),
+			Or:        HistOracle{Proofs: true, Prop: "C02"},
+			PermLimit: pick(c, 3, 4),
+		}
+		c.Cov.Rule = "BFS over block histories as C01; in every reached state every non-empty subset of the leaves an instance tracks is requested from every prover in all permutations (|S|<=PermLimit) or sorted/reversed/rotated order; targets, canonical proof hashes, acceptance by every verifier and the reported tree indexes are compared with the reference forest; non-trivial = distinct concrete state with a dead leaf"
+		c.Cov.Bound["Nmax"] = fam.Nmax
+		c.Cov.Bound["TotalRows"] = fmt.Sprint(trs)
+		c.Cov.Bound["PermLimit"] = fam.PermLimit
+		BFS(c, fam, 0)
+		if c.Thorough() {
+			tallFamily(c, "C02")
+		}
+	}
+
+	Checks["C10"] = func(c *Ctx) {
+		c.Cov.Rule = "two BFS families over block histories: (A) forward only, (B) with undo, serialize/restore and Verify(remember) transitions; in every reached state GetLeafPosition/GetLeafHashPositions are probed with every leaf ever added, every internal node hash, a fresh and the zero hash, GetHash with every position in [0, 2^(rows+1)+2] plus 2^31, 2^32+1, 2^63, 2^64-1, and the tracked-leaf counts are compared with the reference forest; non-trivial = distinct concrete state with a dead leaf or after undo/restore/verify"
+		trsA := pick(c, []uint8{0, 1, 2, 3, 4, 5, 62, 63}, allTR())
+		famA := &HistFamily{
+			Nmax:  pick(c, 8, 9),
+			Insts: stdInsts(trsA, []string{"all", "even", "none"}),
+			Or:    HistOracle{Lookups: true, Prop: "C10"},
+		}
+		trsB := pick(c, []uint8{0, 3, 63}, []uint8{0, 1, 2, 3, 4, 5, 62, 63})
+		famB := &HistFamily{
+			Nmax:    pick(c, 4, 5),
+			Insts:   stdInsts(trsB, []string{"all", "even", "none"}),
+			Or:      HistOracle{Lookups: true, Prop: "C10"},
+			UndoBud: pick(c, 1, 2),
+			RTBud:   1,
+			VerBud:  1,
+		}
+		c.Cov.Bound["A.Nmax"] = famA.Nmax
+		c.Cov.Bound["A.TotalRows"] = fmt.Sprint(trsA)
+		c.Cov.Bound["B.Nmax"] = famB.Nmax
+		c.Cov.Bound["B.TotalRows"] = fmt.Sprint(trsB)
+		c.Cov.Bound["B.undo_budget"] = famB.UndoBud
+		c.Cov.Bound["B.roundtrip_budget"] = famB.RTBud
+		c.Cov.Bound["B.verify_remember_budget"] = famB.VerBud
+		BFS(c, famA, 0)
+		BFS(c, famB, 0)
+	}
+
+	Checks["C06"] = func(c *Ctx) {
+		c.Cov.Rule = "BFS over block histories with Undo as a transition (newest first, budget = number of undos per path, arbitrary interleaving with further blocks); after every transition of a path that contains an undo, roots, leaf count, GetLeafPosition of every leaf ever added, provability and byte-identical canonical proofs of every tracked subset, and GetHash of every position are compared with the reference forest of the model state; the seen-set key holds the concrete dumps and the top frames of the undo stack; non-trivial = distinct concrete state reached through at least one undo or with a dead leaf"
+		trs := pick(c, []uint8{0, 3, 63}, []uint8{0, 1, 2, 3, 4, 5, 62, 63})
+		insts := stdInsts(trs, []string{"all", "even", "none"})[1:] // no Stump: it cannot undo
+		fam := &HistFamily{
+			Nmax:      pick(c, 5, 6),
+			Insts:     insts,
+			Or:        HistOracle{Roots: true, Proofs: true, Lookups: true, Prop: "C06", OnlyAfter: "undo"},
+			UndoBud:   pick(c, 2, 3),
+			PermLimit: 2,
+		}
+		c.Cov.Bound["Nmax"] = fam.Nmax
+		c.Cov.Bound["TotalRows"] = fmt.Sprint(trs)
+		c.Cov.Bound["undo_budget"] = fam.UndoBud
+		BFS(c, fam, 0)
+		if c.Thorough() && !c.Expired() {
+			deep := &HistFamily{
+				Nmax:      8,
+				Insts:     stdInsts([]uint8{0, 63}, []string{"all", "even"})[1:],
+				Or:        HistOracle{Roots: true, Proofs: true, Lookups: true, Prop: "C06", OnlyAfter: "undo", ProofSets: "small"},
+				UndoBud:   1,
+				PermLimit: 2,
+			}
+			c.Cov.Bound["deep.Nmax"] = deep.Nmax
+			c.Cov.Bound["deep.undo_budget"] = 1
+			BFS(c, deep, 0)
+			tallFamily(c, "C06")
+		}
+	}
 }
